@@ -15,6 +15,14 @@ var intrinsics = map[string]intrinsicFn{}
 var redirects = map[string]string{
 	"sort.Slice":        "SortSliceModel",
 	"(*sync.Pool).Get": "PoolGetModel",
+	// searches whose standard implementation bottoms out in assembly
+	"bytes.Index":                         "BytesIndexModel",
+	"bytes.IndexByte":                     "BytesIndexByteModel",
+	"bytes.Contains":                      "BytesContainsModel",
+	"bytes.Count":                         "BytesCountModel",
+	"internal/bytealg.IndexByte":          "BytesIndexByteModel",
+	"internal/bytealg.Index":              "BytesIndexModel",
+	"internal/bytealg.Count":              "BytesCountByteModel",
 }
 
 func (ex *Exec) call(st *State, fr *Frame, x *ssa.Call) bool {
